@@ -6,7 +6,7 @@ import itertools
 import math
 
 from rv.core import ctx as _ctx
-from rv.core import instrument
+from rv.core import calling, instrument
 from rv.core.tolerances import GEOS_BUFFER_SIMPLIFY, REAL_TOL, ROUND_CAP_SHORTFALL, SHIFT_TOL
 from rv.gen import geoms
 
@@ -185,6 +185,9 @@ def judge(ctx, s1, s2, tb, fb):
     except Exception as e:
         ctx.violate_exc("raises", f"raises:{type(e).__name__}", e, spec=spec)
         return
+    if ctx.every(spec, 4):
+        calling.agree(ctx, "compute_affinity", _orig, dict(geometry1=geoms.build(s1, how="dict"), geometry2=geoms.build(s2, how="dict"), time_buffer=tb, freq_buffer=fb), spec,
+                      variants={"numlike_buffers": {"time_buffer": calling.numlike(ctx.rng, tb), "freq_buffer": calling.numlike(ctx.rng, fb)}})
     # (c) self affinity
     for s, g in ((s1, g1), (s2, g2)):
         if not geoms.is_shapely_valid(g):
@@ -344,7 +347,7 @@ def run(ctx):
                         "areal (box / polygon / multi-polygon) pairs with axis-parallel edges on a shared dyadic lattice: the value is the ratio of "
                         "shared to covered lattice cells (the library documents the value as intersection area over union area; areal types are not buffered)"]
     ctx.must_monitors += ["compute_affinity.post", "affinity.symmetry", "affinity.shift", "affinity.self", "affinity.time_only", "affinity.box_box", "affinity.time_disjoint", "affinity.areal_iou_on_lattice"]
-    ctx.must_reach += ["evaluation/affinity.py::compute_affinity", "evaluation/affinity.py::compute_affinity_in_time", "evaluation/affinity.py::_prepare_geometry"]
+    ctx.must_reach += ["evaluation/affinity.py::compute_affinity", "?evaluation/affinity.py::compute_affinity_in_time", "evaluation/affinity.py::_prepare_geometry"]
 
     # directed: identical points/lines (self affinity slightly above one on the pinned tree), zero-extent pairs
     directed = [
